@@ -10,7 +10,7 @@ for _n, _a, _r in [
     ("SEQOF", ["STREAM"], "SEQ"), ("FAILS", ["STREAM"], "bool"), ("NTHS", ["STREAM", "int"], "U"),
     ("DROPS", ["STREAM", "int"], "STREAM"), ("TAKES", ["STREAM", "int"], "SEQ"),
     ("STREAMVAL", ["U"], "STREAM"), ("ITER_U", ["STREAM"], "U"), ("BOUND", ["int", "U"], "U"),
-    ("PREDFAILS", ["U", "SEQ"], "bool"),
+    ("PREDFAILS", ["U", "SEQ"], "bool"), ("FAILAT", ["STREAM"], "int"),
     # multiset views
     ("MSOF", ["SEQ"], "MS"), ("MSS", ["STREAM"], "MS"),
 ]:
@@ -19,20 +19,21 @@ for _n, _a, _r in [
 assumption("A-ALG", "laws of the sequence/stream algebra used at interface level (associativity and unit of concatenation, OFSEQ homomorphism, prefix/suffix lemmas): list-theory facts, stated as axioms in contracts/c05_theory.py; not machine-checked here")
 
 # --- list theory (finite sequences) ---
-axiom("forall(lambda a: CAT(EMPTY(), a) == a and CAT(a, EMPTY()) == a, a='SEQ')")
-axiom("forall(lambda a, b, c: CAT(CAT(a, b), c) == CAT(a, CAT(b, c)), a='SEQ', b='SEQ', c='SEQ')")
+axiom("forall(lambda a: CAT(EMPTY(), a) == a, a='SEQ', pats=['CAT(EMPTY(), a)'])")
+axiom("forall(lambda a: CAT(a, EMPTY()) == a, a='SEQ', pats=['CAT(a, EMPTY())'])")
+axiom("forall(lambda a, b, c: CAT(CAT(a, b), c) == CAT(a, CAT(b, c)), a='SEQ', b='SEQ', c='SEQ', pats=['CAT(CAT(a, b), c)'])")
 axiom("LEN(EMPTY()) == 0")
-axiom("forall(lambda a: LEN(a) >= 0, a='SEQ')")
-axiom("forall(lambda a, b: LEN(CAT(a, b)) == LEN(a) + LEN(b), a='SEQ', b='SEQ')")
-axiom("forall(lambda x: LEN(UNIT(x)) == 1, x='U')")
-axiom("forall(lambda a: TAKE(a, LEN(a)) == a, a='SEQ')")
-axiom("forall(lambda a: implies(LEN(a) == 0, a == EMPTY()), a='SEQ')")
+axiom("forall(lambda a: LEN(a) >= 0, a='SEQ', pats=['LEN(a)'])")
+axiom("forall(lambda a, b: LEN(CAT(a, b)) == LEN(a) + LEN(b), a='SEQ', b='SEQ', pats=['LEN(CAT(a, b))'])")
+axiom("forall(lambda x: LEN(UNIT(x)) == 1, x='U', pats=['UNIT(x)'])")
+axiom("forall(lambda a: TAKE(a, LEN(a)) == a, a='SEQ', pats=['TAKE(a, LEN(a))'])")
+axiom("forall(lambda a: implies(LEN(a) == 0, a == EMPTY()), a='SEQ', pats=['LEN(a)'])")
 # --- streams ---
-axiom("forall(lambda s: CATS(EMPTYS(), s) == s, s='STREAM')")
-axiom("forall(lambda a, b: CATS(OFSEQ(a), OFSEQ(b)) == OFSEQ(CAT(a, b)), a='SEQ', b='SEQ')")
-axiom("forall(lambda a: FIN(OFSEQ(a)) and SEQOF(OFSEQ(a)) == a and not FAILS(OFSEQ(a)), a='SEQ')")
-axiom("forall(lambda a, i: NTHS(OFSEQ(a), i) == NTH(a, i), a='SEQ')")
-axiom("forall(lambda a: implies(LEN(a) >= 1, not FIN(CYC(a))) and not FAILS(CYC(a)), a='SEQ')")
+axiom("forall(lambda s: CATS(EMPTYS(), s) == s, s='STREAM', pats=['CATS(EMPTYS(), s)'])")
+axiom("forall(lambda a, b: CATS(OFSEQ(a), OFSEQ(b)) == OFSEQ(CAT(a, b)), a='SEQ', b='SEQ', pats=['CATS(OFSEQ(a), OFSEQ(b))'])")
+axiom("forall(lambda a: FIN(OFSEQ(a)) and SEQOF(OFSEQ(a)) == a and not FAILS(OFSEQ(a)), a='SEQ', pats=['OFSEQ(a)'])")
+axiom("forall(lambda a, i: NTHS(OFSEQ(a), i) == NTH(a, i), a='SEQ', pats=['NTHS(OFSEQ(a), i)'])")
+axiom("forall(lambda a: implies(LEN(a) >= 1, not FIN(CYC(a))) and not FAILS(CYC(a)), a='SEQ', pats=['CYC(a)'])")
 
 # --- lists as sequences (facts of the (arr, n) representation) ---
 ufunc("LSEQR", ["ArrIntInt", "int"], "SEQ")
@@ -43,23 +44,23 @@ ufunc("APP", ["U", "U"], "U")
 ufunc("WITQ", ["U", "U", "SEQ"], "U")
 ufunc("STR", ["U"], "U")
 ufunc("JDUMP", ["U"], "U")
-axiom("forall(lambda r: UNBOX(BOX(r)) == r)")
-axiom("forall(lambda a, n: implies(n >= 0, LEN(LSEQR(a, n)) == n), a='ArrIntInt')")
-axiom("forall(lambda a, n: implies(n >= 0, LEN(LSEQU(a, n)) == n), a='ArrIntU')")
-axiom("forall(lambda a, n, i: implies(0 <= i and i < n, NTH(LSEQR(a, n), i) == BOX(a[i])), a='ArrIntInt')")
-axiom("forall(lambda a, n, i: implies(0 <= i and i < n, NTH(LSEQU(a, n), i) == a[i]), a='ArrIntU')")
-axiom("forall(lambda a: LSEQR(a, 0) == EMPTY(), a='ArrIntInt')")
-axiom("forall(lambda a: LSEQU(a, 0) == EMPTY(), a='ArrIntU')")
+axiom("forall(lambda r: UNBOX(BOX(r)) == r, pats=['BOX(r)'])")
+axiom("forall(lambda a, n: implies(n >= 0, LEN(LSEQR(a, n)) == n), a='ArrIntInt', pats=['LSEQR(a, n)'])")
+axiom("forall(lambda a, n: implies(n >= 0, LEN(LSEQU(a, n)) == n), a='ArrIntU', pats=['LSEQU(a, n)'])")
+axiom("forall(lambda a, n, i: implies(0 <= i and i < n, NTH(LSEQR(a, n), i) == BOX(a[i])), a='ArrIntInt', pats=['NTH(LSEQR(a, n), i)'])")
+axiom("forall(lambda a, n, i: implies(0 <= i and i < n, NTH(LSEQU(a, n), i) == a[i]), a='ArrIntU', pats=['NTH(LSEQU(a, n), i)'])")
+axiom("forall(lambda a: LSEQR(a, 0) == EMPTY(), a='ArrIntInt', pats=['LSEQR(a, 0)'])")
+axiom("forall(lambda a: LSEQU(a, 0) == EMPTY(), a='ArrIntU', pats=['LSEQU(a, 0)'])")
 # TAKE of at least the whole sequence is the sequence; of nothing is empty
-axiom("forall(lambda s, k: implies(k >= LEN(s), TAKE(s, k) == s), s='SEQ')")
-axiom("forall(lambda s: TAKE(s, 0) == EMPTY(), s='SEQ')")
-axiom("forall(lambda s, k: implies(0 <= k and k <= LEN(s), LEN(TAKE(s, k)) == k), s='SEQ')")
+axiom("forall(lambda s, k: implies(k >= LEN(s), TAKE(s, k) == s), s='SEQ', pats=['TAKE(s, k)'])")
+axiom("forall(lambda s: TAKE(s, 0) == EMPTY(), s='SEQ', pats=['TAKE(s, 0)'])")
+axiom("forall(lambda s, k: implies(0 <= k and k <= LEN(s), LEN(TAKE(s, k)) == k), s='SEQ', pats=['TAKE(s, k)'])")
 # mapping: extensionality in the function argument (witness form)
-axiom("forall(lambda f, g, s: MAPQ(f, s) == MAPQ(g, s) or APP(f, WITQ(f, g, s)) != APP(g, WITQ(f, g, s)), f='U', g='U', s='SEQ')")
-axiom("forall(lambda f, s: LEN(MAPQ(f, s)) == LEN(s), f='U', s='SEQ')")
-axiom("forall(lambda f, s: LEN(FILT(f, s)) <= LEN(s), f='U', s='SEQ')")
+axiom("forall(lambda f, g, s: MAPQ(f, s) == MAPQ(g, s) or APP(f, WITQ(f, g, s)) != APP(g, WITQ(f, g, s)), f='U', g='U', s='SEQ', pats=[['MAPQ(f, s)', 'MAPQ(g, s)']])")
+axiom("forall(lambda f, s: LEN(MAPQ(f, s)) == LEN(s), f='U', s='SEQ', pats=['MAPQ(f, s)'])")
+axiom("forall(lambda f, s: LEN(FILT(f, s)) <= LEN(s), f='U', s='SEQ', pats=['FILT(f, s)'])")
 assumption("A-JSON", "json.dumps(x, sort_keys=True) is a function of the value of x and injective on JSON values (equal canonical text <=> equal value)")
-axiom("forall(lambda a, b: implies(JDUMP(a) == JDUMP(b), a == b), a='U', b='U')")
+axiom("forall(lambda a, b: implies(JDUMP(a) == JDUMP(b), a == b), a='U', b='U', pats=[['JDUMP(a)', 'JDUMP(b)']])")
 
 # --- stream combinators of sedpack (their laws are the stream-level reading of
 #     the contracts proved on the real generators in c10 / c15) ---
@@ -68,43 +69,44 @@ ufunc("RRS", ["STREAM", "int"], "STREAM")        # round_robin(S, n): S is a str
 ufunc("LAZYS", ["U", "STREAM", "int"], "STREAM") # LazyPool(T).imap_unordered(f, S)
 assumption("A-STREAMLAWS", "stream-level laws of SHUF / RRS / LAZYS are the reading, on whole streams, of the postconditions proved for shuffle_buffer, round_robin (C02 token form) and LazyPool.imap_unordered (+ A-LEMMA-CONC): finite input and buffer >= 1 => same multiset; finiteness preserved; a failing input fails the output")
 # finiteness
-axiom("forall(lambda f, s: FIN(MAPS(f, s)) == FIN(s), f='U', s='STREAM')")
-axiom("forall(lambda s: FIN(FLATS(s)) == FIN(s), s='STREAM')")
-axiom("forall(lambda s, n: FIN(SHUF(s, n)) == FIN(s), s='STREAM')")
-axiom("forall(lambda s, n: FIN(RRS(s, n)) == FIN(s), s='STREAM')")
-axiom("forall(lambda f, s, n: FIN(LAZYS(f, s, n)) == FIN(s), f='U', s='STREAM')")
+axiom("forall(lambda f, s: FIN(MAPS(f, s)) == FIN(s), f='U', s='STREAM', pats=['MAPS(f, s)'])")
+axiom("forall(lambda s: FIN(FLATS(s)) == FIN(s), s='STREAM', pats=['FLATS(s)'])")
+axiom("forall(lambda s, n: FIN(SHUF(s, n)) == FIN(s), s='STREAM', pats=['SHUF(s, n)'])")
+axiom("forall(lambda s, n: FIN(RRS(s, n)) == FIN(s), s='STREAM', pats=['RRS(s, n)'])")
+axiom("forall(lambda f, s, n: FIN(LAZYS(f, s, n)) == FIN(s), f='U', s='STREAM', pats=['LAZYS(f, s, n)'])")
 # multisets: shuffling stages preserve the multiset of a finite stream
-axiom("forall(lambda s, n: implies(FIN(s) and n >= 1, MSS(SHUF(s, n)) == MSS(s)), s='STREAM')")
-axiom("forall(lambda s, n: implies(FIN(s) and n >= 1, MSS(RRS(s, n)) == MSS(FLATS(s))), s='STREAM')")
-axiom("forall(lambda f, s, n: implies(FIN(s) and n >= 1, MSS(LAZYS(f, s, n)) == MSS(MAPS(f, s))), f='U', s='STREAM')")
+axiom("forall(lambda s, n: implies(FIN(s) and n >= 1, MSS(SHUF(s, n)) == MSS(s)), s='STREAM', pats=['SHUF(s, n)'])")
+axiom("forall(lambda s, n: implies(FIN(s) and n >= 1, MSS(RRS(s, n)) == MSS(FLATS(s))), s='STREAM', pats=['RRS(s, n)'])")
+axiom("forall(lambda f, s, n: implies(FIN(s) and n >= 1, MSS(LAZYS(f, s, n)) == MSS(MAPS(f, s))), f='U', s='STREAM', pats=['LAZYS(f, s, n)'])")
 # multiset congruence of map / flat-map (the multiset of the result depends only on the multiset of the input)
 ufunc("MAPMS", ["U", "MS"], "MS")     # multiset image under a function
 ufunc("FLATMS", ["MS"], "MS")         # multiset union of the contents of a multiset of iterables
 ufunc("WITM", ["U", "U", "MS"], "U")
-axiom("forall(lambda f, s: MSS(MAPS(f, s)) == MAPMS(f, MSS(s)), f='U', s='STREAM')")
-axiom("forall(lambda s: MSS(FLATS(s)) == FLATMS(MSS(s)), s='STREAM')")
-axiom("forall(lambda f, g, m: MAPMS(f, m) == MAPMS(g, m) or APP(f, WITM(f, g, m)) != APP(g, WITM(f, g, m)), f='U', g='U', m='MS')")
+axiom("forall(lambda f, s: MSS(MAPS(f, s)) == MAPMS(f, MSS(s)), f='U', s='STREAM', pats=['MSS(MAPS(f, s))'])")
+axiom("forall(lambda s: MSS(FLATS(s)) == FLATMS(MSS(s)), s='STREAM', pats=['MSS(FLATS(s))'])")
+axiom("forall(lambda f, g, m: MAPMS(f, m) == MAPMS(g, m) or APP(f, WITM(f, g, m)) != APP(g, WITM(f, g, m)), f='U', g='U', m='MS', pats=[['MAPMS(f, m)', 'MAPMS(g, m)']])")
 # failures propagate through every stage (C07)
-axiom("forall(lambda f, s: implies(FAILS(s), FAILS(MAPS(f, s))), f='U', s='STREAM')")
-axiom("forall(lambda s: implies(FAILS(s), FAILS(FLATS(s))), s='STREAM')")
-axiom("forall(lambda s, n: implies(FAILS(s), FAILS(SHUF(s, n))), s='STREAM')")
-axiom("forall(lambda s, n: implies(FAILS(s), FAILS(RRS(s, n))), s='STREAM')")
-axiom("forall(lambda f, s, n: implies(FAILS(s), FAILS(LAZYS(f, s, n))), f='U', s='STREAM')")
+axiom("forall(lambda f, s: implies(FAILS(s), FAILS(MAPS(f, s))), f='U', s='STREAM', pats=['MAPS(f, s)'])")
+axiom("forall(lambda s: implies(FAILS(s), FAILS(FLATS(s))), s='STREAM', pats=['FLATS(s)'])")
+axiom("forall(lambda s, n: implies(FAILS(s), FAILS(SHUF(s, n))), s='STREAM', pats=['SHUF(s, n)'])")
+axiom("forall(lambda s, n: implies(FAILS(s), FAILS(RRS(s, n))), s='STREAM', pats=['RRS(s, n)'])")
+axiom("forall(lambda f, s, n: implies(FAILS(s), FAILS(LAZYS(f, s, n))), f='U', s='STREAM', pats=['LAZYS(f, s, n)'])")
 # order: map over a finite, non-failing stream is the map of its sequence
-axiom("forall(lambda f, s: implies(FIN(s) and not FAILS(MAPS(f, s)), SEQOF(MAPS(f, s)) == MAPQ(f, SEQOF(s))), f='U', s='STREAM')")
+axiom("forall(lambda f, s: implies(FIN(s) and not FAILS(MAPS(f, s)), SEQOF(MAPS(f, s)) == MAPQ(f, SEQOF(s))), f='U', s='STREAM', pats=['SEQOF(MAPS(f, s))'])")
 ufunc("WITS", ["U", "U", "STREAM"], "U")
-axiom("forall(lambda f, g, s: MAPS(f, s) == MAPS(g, s) or APP(f, WITS(f, g, s)) != APP(g, WITS(f, g, s)), f='U', g='U', s='STREAM')")
+axiom("forall(lambda f, g, s: MAPS(f, s) == MAPS(g, s) or APP(f, WITS(f, g, s)) != APP(g, WITS(f, g, s)), f='U', g='U', s='STREAM', pats=[['MAPS(f, s)', 'MAPS(g, s)']])")
 
 # --- prefix / suffix laws used by the batched (unshuffled concurrent) loop ---
-axiom("forall(lambda s, c, m: implies(c >= 0 and m >= 0, CAT(TAKES(s, c), TAKES(DROPS(s, c), m)) == TAKES(s, c + m)), s='STREAM')")
-axiom("forall(lambda s: TAKES(s, 0) == EMPTY(), s='STREAM')")
-axiom("forall(lambda s: implies(FIN(s) and not FAILS(s), TAKES(s, LEN(SEQOF(s))) == SEQOF(s) and OFSEQ(SEQOF(s)) == s), s='STREAM')")
-axiom("forall(lambda s: DROPS(s, 0) == s, s='STREAM')")
+axiom("forall(lambda s, c, m: implies(c >= 0 and m >= 0, CAT(TAKES(s, c), TAKES(DROPS(s, c), m)) == TAKES(s, c + m)), s='STREAM', pats=[['TAKES(s, c)', 'TAKES(DROPS(s, c), m)']])")
+axiom("forall(lambda s: TAKES(s, 0) == EMPTY(), s='STREAM', pats=['TAKES(s, 0)'])")
+axiom("forall(lambda s: implies(FIN(s) and not FAILS(s), TAKES(s, LEN(SEQOF(s))) == SEQOF(s)), s='STREAM', pats=['TAKES(s, LEN(SEQOF(s)))'])")
+axiom("forall(lambda s: implies(FIN(s) and not FAILS(s), OFSEQ(SEQOF(s)) == s), s='STREAM', pats=['OFSEQ(SEQOF(s))'])")
+axiom("forall(lambda s: DROPS(s, 0) == s, s='STREAM', pats=['DROPS(s, 0)'])")
 # flat-map distributes over concatenation
-axiom("forall(lambda f, a, b: CATS(FLATS(MAPS(f, OFSEQ(a))), FLATS(MAPS(f, OFSEQ(b)))) == FLATS(MAPS(f, OFSEQ(CAT(a, b)))), f='U', a='SEQ', b='SEQ')")
-axiom("forall(lambda f: FLATS(MAPS(f, OFSEQ(EMPTY()))) == EMPTYS(), f='U')")
-axiom("forall(lambda a, b: FAILS(CATS(a, b)) == (FAILS(a) or FAILS(b)), a='STREAM', b='STREAM')")
+axiom("forall(lambda f, a, b: CATS(FLATS(MAPS(f, OFSEQ(a))), FLATS(MAPS(f, OFSEQ(b)))) == FLATS(MAPS(f, OFSEQ(CAT(a, b)))), f='U', a='SEQ', b='SEQ', pats=['CATS(FLATS(MAPS(f, OFSEQ(a))), FLATS(MAPS(f, OFSEQ(b))))'])")
+axiom("forall(lambda f: FLATS(MAPS(f, OFSEQ(EMPTY()))) == EMPTYS(), f='U', pats=['MAPS(f, OFSEQ(EMPTY()))'])")
+axiom("forall(lambda a, b: FAILS(CATS(a, b)) == (FAILS(a) or FAILS(b)), a='STREAM', b='STREAM', pats=['CATS(a, b)'])")
 axiom("not FAILS(EMPTYS())")
-axiom("forall(lambda a, b: FIN(CATS(a, b)) == (FIN(a) and FIN(b)), a='STREAM', b='STREAM')")
-axiom("forall(lambda s, k: implies(k >= 0 and (not FIN(s) or k < LEN(SEQOF(s))), CAT(TAKES(s, k), UNIT(NTHS(s, k))) == TAKES(s, k + 1)), s='STREAM')")
+axiom("forall(lambda a, b: FIN(CATS(a, b)) == (FIN(a) and FIN(b)), a='STREAM', b='STREAM', pats=['CATS(a, b)'])")
+axiom("forall(lambda s, k: implies(k >= 0 and (not FIN(s) or k < LEN(SEQOF(s))), CAT(TAKES(s, k), UNIT(NTHS(s, k))) == TAKES(s, k + 1)), s='STREAM', pats=['CAT(TAKES(s, k), UNIT(NTHS(s, k)))'])")
 axiom("OFSEQ(EMPTY()) == EMPTYS()")
